@@ -1,9 +1,9 @@
 """C11 -- crystal map selections compose like intersections; per-point data stays
 aligned (DESIGN.md section 4, C11; as-built notes in design.d/C11.md)."""
 import json
-import os
+import subprocess
 
-from vlib import BUILD, Check, fhex, run_cases, run_impl
+from vlib import COQ, Check, fhex, run_cases, run_impl
 
 PROP = "C11"
 
@@ -230,7 +230,15 @@ def run(tier, seed, only=None):
                        "str.lower() modelled for ASCII only"]
     if not ck.step_sanity():
         return ck.finish()
-    ck.step_prove([], "Props/C11.v", extra=["Model/C11CMap.vo"])
+    proved = ck.step_prove([], "Props/C11.v", extra=["Model/C11CMap.vo"])
+    if tier != "quick" and proved:
+        # independent re-check of the compiled proofs (and of the absence of axioms) by coqchk
+        p = subprocess.run(["timeout", "900", "coqchk", "-silent", "-o", "-Q", ".", "Verif", "Verif.Props.C11"],
+                           cwd=COQ, capture_output=True, text=True)
+        txt = p.stdout + p.stderr
+        ck.cov["coqchk"] = "ok, axioms: none" if (p.returncode == 0 and "Axioms: <none>" in txt) else txt[-400:]
+        if p.returncode != 0:
+            ck.broken.append(("proof", "coqchk rejects Props/C11.vo: " + txt[-300:]))
     n = 220 if tier == "quick" else 2500
     payload = {"seed": seed, "n": n, "exhaustive": tier != "quick"}
     if only is not None:
